@@ -311,7 +311,15 @@ func (e *NameExpr) GetPos() int {
 }
 
 func (e *NameExpr) String() string {
-	return fmt.Sprintf("%s", e.Data)
+	// A name is printed bare only when the lexer reads that text back as this
+	// very name. Every other name (upper case, blanks, operator characters,
+	// the text of a keyword or of a number, the empty name) was written in
+	// backticks and has no other spelling
+	toks := NewLexer(e.Data).Split()
+	if len(toks) == 1 && toks[0].Tp == NAME && toks[0].Data == e.Data {
+		return e.Data
+	}
+	return fmt.Sprintf("`%s`", e.Data)
 }
 
 func (e *NameExpr) ReturnType() Type {
